@@ -2,6 +2,7 @@
 # usage: tools/runseed.sh <seed-name> <property> [tier]  -- applies a kept change to /repo, runs the check, undoes it
 name="$1"; prop="$2"; tier="${3:-quick}"
 cd /verif
+if [ -n "$(git -C /repo status --porcelain)" ]; then echo "refusing: /repo has uncommitted changes (they would be lost by the undo step)"; exit 4; fi
 git -C /repo apply /verif/seeded/$name/patch.diff || { echo "patch does not apply to /repo HEAD"; exit 3; }
 VERIF_EVIDENCE_OUT=/tmp/runseed-evidence.json ./check $prop --tier $tier > /tmp/runseed.out 2>&1; rc=$?
 git -C /repo checkout -- . 
